@@ -148,6 +148,9 @@ class World:
         from repid import Job
 
         args = {"script": script} if script is not None else kw.pop("args", None)
+        # explicit ids everywhere: uuid4 defaults would make runs irreproducible (hash order, store-call order)
+        kw.setdefault("args_id", f"args-{id_}")
+        kw.setdefault("result_id", f"res-{id_}")
         return Job(name, id_=id_, args=args, _connection=self.conn, **kw)
 
     def worker(self, routers, **kw):
